@@ -61,6 +61,10 @@ CLAIMED.update({
             "validate_funds's five rejection atoms cannot reach Ok and its success dominates the bond writes; one declared amount feeds "
             "BOND, GLOBAL.bonded_amount, bonded_assets and the UNBOND record; unbond reachable iff bonded >= amount; a block-time-keyed "
             "UNBOND save must merge; withdraw releases exactly matured records, add and remove together, payout to the caller.", "§4 C08"),
+    "C09": ("single-definition pairing of ledger updates + must-pass-through + closure-resolved filter comparisons + rollover provenance",
+            "One reward definition feeds available-=, claimed+= (both arms) and the payout to the sender; the checked subtraction precedes the epoch save; "
+            "cursor saved on every success path, claimable filters are strict (id > last claimed / first bonded), never-bonded cleared; reply aggregates the "
+            "expiring epoch's available into the new epoch's total and available, empties and saves the expiring epoch; single writers.", "§4 C09"),
     "C11": ("guard dominance + closure-resolved provenance + variant-sliced reachability + forward message flow",
             "validate_funds_sent success dominates position writes and its validated amount is the recorded amount; the helper's Ok return "
             "is reachable only through paid==amount (native) or an attached TransferFrom(sender->contract, amount) with allowance>=amount (cw20); "
